@@ -358,6 +358,10 @@ func genSrcFile(t *rapid.T, name string, minAnnotated int) *SrcFile {
 		"\ufeffpackage pb\n\n", // byte order mark (go/parser accepts it): every offset is shifted by 3 bytes
 		"//go:build !ignore\n\n// Package pb 说明。\npackage pb\n\n",
 	}).Draw(t, "header")
+	if rapid.IntRange(0, 39).Draw(t, "longLine") == 0 {
+		// one very long line (beyond 64 KiB, the default buffer of line scanners) ahead of everything else
+		s.Decls = append(s.Decls, SrcDecl{Kind: "other", Text: "const long = \"" + strings.Repeat("x", rapid.SampledFrom([]int{65530, 65536, 70000, 140000}).Draw(t, "lineLen")) + "\" // @tag valid:\"not a field\""})
+	}
 	n := rapid.IntRange(1, 6).Draw(t, "nDecls")
 	sn := 0
 	for i := 0; i < n; i++ {
